@@ -528,7 +528,7 @@ static const char* data_to_file(int did)
 }
 
 /* streams */
-typedef struct { FILE* f; unsigned seed; int chunked; size_t limit; size_t done; } STRM;
+typedef struct { FILE* f; unsigned seed; int chunked; size_t limit; size_t done; long fail_at; long nwrites; } STRM;
 
 static size_t strm_read(void* ptr, size_t size, size_t count, void* ud)
 {
@@ -549,6 +549,7 @@ static size_t strm_write(const void* ptr, size_t size, size_t count, void* ud)
 {
   STRM* s = (STRM*) ud;
   if (s->limit && s->done + size * count > s->limit) return 0; /* disk full */
+  if (++s->nwrites == s->fail_at) return 0;                       /* one write fails, the following ones succeed again */
   s->done += size * count;
   return fwrite(ptr, size, count, s->f);
 }
@@ -983,7 +984,7 @@ int main(int argc, char** argv)
       if (!strcmp(op, "save")) r = yr_rules_save(rulesets[rr], tok[2]);
       else
       {
-        STRM s = {fopen(tok[2], "wb"), 0, 0, nt > 3 ? strtoull(tok[3], 0, 10) : 0, 0};
+        STRM s = {fopen(tok[2], "wb"), 0, 0, nt > 3 ? strtoull(tok[3], 0, 10) : 0, 0, nt > 4 ? atol(tok[4]) : 0, 0};
         YR_STREAM st; st.user_data = &s; st.write = strm_write; st.read = NULL;
         r = yr_rules_save_stream(rulesets[rr], &st);
         fclose(s.f);
